@@ -345,7 +345,7 @@ def c06(tier, seed):
             continue
         gs.append(grp('extract/' + name, 'VH_extract', jobs, cost=1, bound='%d trees x kinds x identities with %d leaves' % (len(jobs), n),
                       symbolic='none beyond path feasibility: the quantifier is over tree shapes, enumerated as jobs/paths',
-                      asserts=['no-error-on-valid', 'no-duplicates', 'no-term-missing', 'no-term-invented', 'returned-is-valid', 'returned-is-fixpoint', 'self-satisfying']))
+                      asserts=['no-error-on-valid', 'no-term-missing', 'no-term-invented', 'returned-is-valid', 'returned-is-fixpoint', 'self-satisfying'] + (['no-duplicates'] if n > 1 else [])))
     return gs
 
 
@@ -359,8 +359,8 @@ def c07(tier, seed):
             ts = ts[seed % 4::4]
         for aspect in ('perm', 'dup', 'respell', 'mono'):
             mm = m
-            if aspect in ('perm', 'dup') and n >= 3:
-                mm = min(m, 3)
+            if aspect == 'mono' or (n >= 3 and not thorough):
+                mm = 2
             jobs = [[enc, k, ''.join(str(i) for i in range(n)) if n < 3 else idn, 'M', mm, big, aspect] for enc in ts for k in kinds
                     for idn in ([''.join(str(i) for i in range(n))] + (['010', '0110'][n - 3:n - 2] if n >= 3 else []))]
             gs.append(grp('set/n%d/%s' % (n, aspect), 'VH_set', jobs, merge=MS, cost=4 * n,
@@ -426,7 +426,48 @@ def c10(tier, seed):
     return gs
 
 
+def repo_test_inputs():
+    """(expression, allowed list) pairs taken from the repository's own test files"""
+    import re, os
+    from core import REPO
+    out, seen = [], set()
+    def add(e, al):
+        k = (e, tuple(al))
+        if k not in seen and len(e) < 300 and len(al) < 12:
+            seen.add(k)
+            out.append([e] + list(al))
+    lit = r'"((?:[^"\\]|\\.)*)"'
+    try:
+        src = open(os.path.join(REPO, 'spdxexp', 'satisfies_test.go')).read()
+        for m in re.finditer(r'\{' + lit + r',\s*' + lit + r',\s*\[\]string\{([^}]*)\}', src):
+            al = re.findall(lit, m.group(3))
+            add(bytes(m.group(2), 'utf-8').decode('unicode_escape'), [bytes(x, 'utf-8').decode('unicode_escape') for x in al])
+        for f in ('parse_test.go', 'scan_test.go', 'extracts_test.go', 'node_test.go', 'compare_test.go', 'license_test.go'):
+            src = open(os.path.join(REPO, 'spdxexp', f)).read()
+            for m in re.finditer(r'\{' + lit + r',\s*' + lit, src):
+                add(bytes(m.group(2), 'utf-8').decode('unicode_escape'), ['MIT', 'Apache-2.0'])
+    except Exception as e:
+        pass
+    return out
+
+
+def selftest(tier, seed):
+    rows = repo_test_inputs()
+    extra = [['(MIT OR LicenseRef-x) AND (GPL-2.0+ OR Apache-2.0 WITH LLVM-exception)', 'LicenseRef-x', 'gpl-3.0-only'],
+             ['((MIT AND ISC) AND Apache-2.0) AND (GPL-2.0 OR BSD-3-Clause)', 'MIT', 'ISC', 'Apache-2.0', 'GPL-2.0'],
+             ['MIT OR (ISC AND (Apache-2.0 OR GPL-2.0))', 'ISC', 'GPL-2.0'], ['(', 'MIT'], ['Apache-2.0-or-later AND FOO', 'MIT'],
+             ['(Apache-2.0-or-later)', 'Apache-2.0'], ['DocumentRef-a:LicenseRef-b OR MIT+ WITH Bison-exception-2.2', 'DocumentRef-a:LicenseRef-b'],
+             ['\xff\xfe', 'MIT'], ['  mit   AND(isc)', 'ISC', ' MIT ']]
+    return [grp('repo-test-inputs', 'VH_selftest', rows + extra, cost=1, compare_notes=True,
+                bound='%d (expression, allowed list) inputs taken from the repository\'s own *_test.go files plus %d extra' % (len(rows), len(extra)),
+                symbolic='none (concrete runs: translator validation)', asserts=['ran']),
+            grp('append-capacities', 'VH_selftestCaps', [[]], cost=1, compare_notes=True, bound='append growth of 6 slice types up to 70 elements and 64 multi-element appends',
+                symbolic='none', asserts=['ran'])]
+
+
 PROPS = {
+    'selftest': dict(groups=selftest, functions=['everything reachable from the exported API, run concretely'], witness_replays=100000, partition=False,
+                     outside='translator validation only: concrete inputs, engine interpretation compared with the native build observable by observable'),
     'C01': dict(groups=c01, functions=SAT_FUNCS, outside='trees with more leaves than the bound; allowed lists with more entries than m (for license-only trees m >= number of leaves needed by one alternative); leaf ids outside the pools (connected through C02/C08/C09, which quantify over all ids)'),
     'C06': dict(groups=c06, functions=SAT_FUNCS + ['ExtractLicenses', 'flatten', 'removeDuplicateStrings'], outside='trees with more leaves than the bound'),
     'C07': dict(groups=c07, functions=SAT_FUNCS, outside='lists of more than 3 entries (+1); re-spellings other than case / spaces / parentheses'),
